@@ -533,6 +533,15 @@ def canonize(f, inline=True):
             n = strip(n.get("e"))
         return n.get("id") if isinstance(n, dict) and n.get("k") == "DeclRef" else None
 
+    def mark(t, p):
+        # the increment of a for-loop writes that loop's own variable: inside the body the variable is constant
+        for anc, fld, _ in p:
+            if anc.get("k") == "For" and fld == "inc":
+                ini = strip(anc.get("init"))
+                if ini is not None and ini.get("k") == "Decl" and any(dd.get("id") == t for dd in ini.get("decls", [])):
+                    return
+        written.add(t)
+
     def scan(x, p):
         k = x.get("k")
         if k == "Decl":
@@ -551,21 +560,21 @@ def canonize(f, inline=True):
         elif k in ("Assign", "CompoundAssign"):
             t = target_id(x.get("l"))
             if t:
-                written.add(t)
+                mark(t, p)
         elif k == "Unary" and x.get("op") in ("++", "--", "&"):
             t = target_id(x.get("e"))
             if t:
-                written.add(t)
+                mark(t, p)
         elif k == "Call":
             args = x.get("args") or []
             if args and (x.get("op") in WRITE_OPS or (x.get("op") and x["callee"].get("method") and not x["callee"].get("const", True))):
                 t = target_id(args[0])
                 if t:
-                    written.add(t)
+                    mark(t, p)
             if x.get("member_call") and x.get("obj") is not None and not x["callee"].get("const", True):
                 t = target_id(x["obj"])
                 if t:
-                    written.add(t)
+                    mark(t, p)
             pts = x["callee"].get("ptypes") or []
             off = 1 if (x.get("op") and x["callee"].get("method")) else 0
             for i, a in enumerate(args):
@@ -582,17 +591,43 @@ def canonize(f, inline=True):
         names[v[-1]] = "@%d" % i
     for i, v in enumerate(sorted(lamparams)):
         names[v[-1]] = "&%d" % i
+    def stable(init):
+        """the value of the initialiser cannot change while the local is alive: it reads only variables that are never written
+        (parameters, loop variables inside their body, other inlined locals) and calls no non-const member function"""
+        ok = [True]
+
+        def chk(x, p):
+            k = x.get("k")
+            if k == "DeclRef" and x.get("dk") in ("Var", "ParmVar", "Binding") and x.get("id"):
+                if x["id"] in written or (x["id"] not in inits and x["id"] in by_id and x["id"] not in params_ids and x["id"] not in loop_ids):
+                    ok[0] = False
+            elif k in ("Assign", "CompoundAssign") or (k == "Unary" and x.get("op") in ("++", "--")) or k == "Lambda":
+                ok[0] = False
+            elif k == "Call":
+                if x.get("op") in WRITE_OPS or (x["callee"].get("method") and not x["callee"].get("const", True) and not x["callee"].get("static") and
+                                                 x["callee"]["name"].split("::")[-1] != x["callee"].get("cls", "").split("<")[0].split("::")[-1]):
+                    ok[0] = False
+            elif k == "This" and not g.get("const", False):
+                ok[0] = False
+        walk(init, chk)
+        return ok[0]
+    by_id = {dd["id"] for _, _, dd in order}
+    params_ids = {p.get("id") for p in g.get("params") or []}
+    loop_ids = {v[-1] for v in loopvars} | {v[-1] for v in rangevars} | {v[-1] for v in lamparams}
     cnt = 0
+    single = {}
     for _, _, dd in sorted(order, key=lambda t: (t[0], t[1])):
         if dd["id"] in names:
             continue
         ty = dd.get("type") or ""
         is_ref = ty.rstrip().endswith("&") and not ty.lstrip().startswith("const ")
-        if inline and dd.get("init") is not None and dd["id"] not in written and not is_ref:
+        if inline and dd.get("init") is not None and dd["id"] not in written and not is_ref and stable(dd["init"]):
             inits[dd["id"]] = dd["init"]
             names[dd["id"]] = "=" + dd["name"]
         else:
             names[dd["id"]] = "%%%d" % cnt
+            if dd.get("init") is not None and dd["id"] not in written and not is_ref:
+                single[names[dd["id"]]] = True      # written only by its declaration, but reads state that changes
             cnt += 1
 
     def sub(n, depth=0):
@@ -628,4 +663,5 @@ def canonize(f, inline=True):
         p["orig_name"] = p.get("name")
         p["name"] = "$%d" % i
     g["canon_names"] = names
+    g["canon_single"] = single
     return g
